@@ -153,6 +153,15 @@ def _validate_one(spec, part, timeout):
     out["consumed"], out["total"] = int(m.group(1)), int(m.group(2))
     if out["consumed"] != out["total"]:
         um = re.search(r'<<"UNMATCHED".*', r.out)
+        if spec in ("TraceCounter", "TraceTicket"):
+            # the implementation-level model cannot explain an event at all: reported as drift (the property-level
+            # specifications decide the verdict), never as an alarm or a tool error
+            for tag in ("DIV", "MATCHED"):
+                v = r.printed(tag)
+                if v:
+                    out[tag.lower()] = v[0]
+            out.setdefault("div", []).append([-1, out["consumed"] + 1, "unconsumed: " + (um.group(0)[:120] if um else "")])
+            return out
         raise ToolError("%s on %s: trace not consumed: %s" % (spec, part, um.group(0)[:500] if um else ""))
     for tag in ("VIOL", "DIV", "SEEN", "MATCHED"):
         v = r.printed(tag)
